@@ -213,19 +213,38 @@ impl<'a> Fold<Diagnostic> for TypeResolver<'a> {
     fn fold_array_subranges(&mut self, node: ArraySubranges) -> Result<ArraySubranges, Diagnostic> {
         // The element type of an array is a type like any other: it must be
         // an elementary type or declared somewhere in the library.
-        if !is_elementary_type(&node.type_name)
-            && !is_unsupported_standard_type(&node.type_name)
-            && self.types.find(&node.type_name).is_none()
+        self.require_known_type(&node.type_name, "Array element type");
+        Ok(node)
+    }
+
+    fn fold_simple_initializer(
+        &mut self,
+        node: SimpleInitializer,
+    ) -> Result<SimpleInitializer, Diagnostic> {
+        // A variable written with an initial value (name : type := constant)
+        // does not come here as a late bound type, but its type is looked
+        // up all the same.
+        self.require_known_type(&node.type_name, "Variable type");
+        Ok(node)
+    }
+}
+
+impl TypeResolver<'_> {
+    /// Reports a type name that is neither an elementary type, nor a
+    /// standard library type, nor declared somewhere in the library.
+    fn require_known_type(&mut self, name: &Type, label: &str) {
+        if !is_elementary_type(name)
+            && !is_unsupported_standard_type(name)
+            && self.types.find(name).is_none()
         {
             self.diagnostics.push(
                 Diagnostic::problem(
                     Problem::UndeclaredUnknownType,
-                    Label::span(node.type_name.span(), "Array element type"),
+                    Label::span(name.span(), label),
                 )
-                .with_context_type("identifier", &node.type_name),
+                .with_context_type("identifier", name),
             );
         }
-        Ok(node)
     }
 }
 
